@@ -75,13 +75,19 @@ Definition upd_live (live : list bool) (d : list (nat * option (list Z))) : list
 (* walk the operations and the observation groups together.
    nslots = number of slots at the previous observation; cur = slots created so far;
    allowed = targets accumulated in the current phase *)
+(* operations that may create, resize or free a reservation (claim, truncate, into_vec) or free a region
+   (drop, the copy paths of the in-place kernels, import / stream next releasing a structure) *)
+Definition pool_may_change (code : nat) : bool :=
+  match code with 5 | 9 | 14 | 15 | 16 | 19 | 21 | 22 | 24 | 25 | 26 | 27 => true | _ => false end.
+
 Fixpoint post_walk (ops : list op) (out : list (list Z)) (nslots cur : nat) (allowed : list nat)
-         (pc pe : list Z) (live : list bool) : bool :=
+         (pc pe : list Z) (live : list bool) (ppool : Z) (maychg : bool) : bool :=
   match ops with
   | [] => match out with [] => true | _ => false end
   | p :: t =>
       let allowed' := op_targets p ++ allowed in
       let cur' := (cur + appends (o_code p))%nat in
+      let maychg' := maychg || pool_may_change (o_code p) in
       if observed p t then
         match out with
         | fp :: cc :: ec :: dl :: _ :: out' =>
@@ -94,13 +100,15 @@ Fixpoint post_walk (ops : list op) (out : list (list Z)) (nslots cur : nat) (all
             && counters_ok pc cc && counters_ok pe ec
             (* pool never negative; when nothing is alive everything was released exactly once *)
             && (0 <=? nth 1 fp 0)%Z
+            (* the accounting moves only when a reservation can be created, resized or freed *)
+            && ((nth 1 fp 0 =? ppool)%Z || maychg')
             && (if quiescent
                 then forallb (Z.eqb 1) cc && forallb (Z.eqb 1) ec && (nth 1 fp 0 =? 0)%Z
                 else true)
-            && post_walk t out' cur' cur' [] cc ec live'
+            && post_walk t out' cur' cur' [] cc ec live' (nth 1 fp 0%Z) false
         | _ => false
         end
-      else post_walk t out nslots cur' allowed' pc pe live
+      else post_walk t out nslots cur' allowed' pc pe live ppool maychg'
   end.
 
 Definition split_post (a : args) : args * args :=
@@ -115,7 +123,7 @@ Definition split_post (a : args) : args * args :=
 
 Definition post_ok (a : args) : bool :=
   let '(ar, out) := split_post a in
-  post_walk (decode_ops ar) out 0 0 [] [] [] [].
+  post_walk (decode_ops ar) out 0 0 [] [] [] [] 0%Z false.
 
 Definition d_hist_post (a : args) : list (list Z) := [[zb (post_ok a)]].
 
